@@ -785,13 +785,13 @@ Fixpoint pair_fields (toks : list tok) : list cfield :=
   | _ => []
   end.
 
-(* the tokens after the LAST `CONFIG` token (the printer puts the config section last; an address inside a migration
-   tag may itself be the string CONFIG) *)
+(* the tokens after the LAST `CONFIG` token, in any case (the printer puts the config section last; an address inside a
+   migration tag may itself be the string CONFIG) *)
 Fixpoint after_config (toks : list tok) : list tok :=
   match toks with
   | [] => []
   | t :: r =>
-    if bytes_eqb t kw_CONFIG then (if existsb (bytes_eqb kw_CONFIG) r then after_config r else r)
+    if bytes_eqb (to_upper t) kw_CONFIG then (if existsb (fun x => bytes_eqb (to_upper x) kw_CONFIG) r then after_config r else r)
     else after_config r
   end.
 
@@ -800,9 +800,15 @@ Definition config_order (toks : list tok) : list cfield := pair_fields (after_co
 
 (* the vector is exactly what the printer emits for the metadata it parses to: no parser could tell it from a
    genuine message *)
+Definition kw_like (t : tok) : bool :=
+  let u := to_upper t in
+  bytes_eqb u kw_PEER || bytes_eqb u kw_CONFIG || bytes_eqb u kw_MIGRATING || bytes_eqb u kw_IMPORTING.
+(* equal, or the same PEER / CONFIG / MIGRATING / IMPORTING keyword in another case (the parsers ignore keyword case) *)
+Definition tok_eqb_kw (a b : tok) : bool := bytes_eqb a b || (kw_like a && bytes_eqb (to_upper a) (to_upper b)).
+
 Definition in_language (unpack : tok -> option pcm_data) (toks : list tok) : bool :=
   match parse_pcm unpack toks with
-  | Ok (m, true) => tok_list_eqb (pcm_to_args (config_order toks) m) toks
+  | Ok (m, true) => list_eqb tok_eqb_kw (pcm_to_args (config_order toks) m) toks
   | _ => false
   end.
 
